@@ -90,6 +90,18 @@ def _m_guarded(a, k):
     a.push(0).op("SLOAD").push(2).op("ADD").push(0).op("SSTORE").op("STOP")
 
 
+def _m_tlock(a, k):
+    # transient storage is empty at the start of every transaction: if (tload(0) != 0) w = 1; else { tstore(0, 1); v += 1 }
+    # a leak from one invariant call into the next turns the second call into w = 1 (a break that does not reproduce) and
+    # loses the second increment (a missed sequence)
+    leak = a.fresh("leak")
+    a.push(0).op("TLOAD").jumpi(leak)
+    a.push(1).push(0).op("TSTORE")
+    a.push(0).op("SLOAD").push(1).op("ADD").push(0).op("SSTORE").op("STOP")
+    a.label(leak)
+    a.push(1).push(1).op("SSTORE").op("STOP")
+
+
 def _child_runtime(c):
     # the constant sits in the code like a Solidity immutable: PUSH32 <c> at offset 1
     rt = Asm()
@@ -131,6 +143,7 @@ MUTATORS = {
     "pay": ("pay()", "payable", _m_pay),
     "touch": ("touch()", "nonpayable", _m_touch),
     "guarded": ("guarded()", "nonpayable", _m_guarded),
+    "tlock": ("tlock()", "nonpayable", _m_tlock),
 }
 INVARIANTS = ["v_ne_k", "v_lt_k", "w_zero", "sum_ne_k"]
 
